@@ -65,6 +65,28 @@ NAMES2 = {
     ("C19", "1"): ("loadtxt-max-rows", []), ("C19", "2"): ("close-before-validation", []),
     ("C20", "1"): ("spline-force-coords-into-param", []), ("C20", "2"): ("vector-predict-checks-components", []),
 }
+NAMES3 = {
+    ("C01", "1"): ("symmetric-jacobian-zero-diagonal", []), ("C01", "2"): ("chain-predict-named-steps", ["C06"]),
+    ("C02", "1"): ("poisson-minus-one-per-component-fit", []), ("C02", "2"): ("square-jacobian-symmetric-solve", []),
+    ("C03", "1"): ("small-distance-branch-parenthesis", []), ("C03", "2"): ("predict-drops-mindist", []),
+    ("C04", "1"): ("vector-jacobian-cross-block-transposed", ["C03"]), ("C04", "2"): ("drop-nonfinite-uses-extra-coords", []),
+    ("C05", "1"): ("grid-1d-coordinates-drop-extras", []), ("C05", "2"): ("profile-unit-vector-zero-length", ["C07"]),
+    ("C06", "1"): ("chain-predict-named-steps", ["C01"]), ("C06", "2"): ("knn-filter-drops-weights", []),
+    ("C07", "1"): ("line-coordinates-min-two-nodes", []), ("C07", "2"): ("spacing-to-size-sign-zero", []),
+    ("C08", "1"): ("block-index-arithmetic-no-lower-clamp", []), ("C08", "2"): ("check-region-strict-less", ["C13"]),
+    ("C09", "1"): ("single-point-blocks-shortcut-order", []), ("C09", "2"): ("block-index-arithmetic-no-lower-clamp", ["C08"]),
+    ("C10", "1"): ("v2w-min-with-initial-one", []), ("C10", "2"): ("v2w-on-list-of-components", []),
+    ("C11", "1"): ("ideal-sum-rounded", []), ("C11", "2"): ("shuffle-split-train-not-complement", []),
+    ("C12", "1"): ("dask-key-names-collide", []), ("C12", "2"): ("score-estimator-positional-weights", []),
+    ("C13", "1"): ("inside-centre-halfwidth", []), ("C13", "2"): ("get-region-all-coordinates", []),
+    ("C14", "1"): ("kdtree-cache-by-identity", []), ("C14", "2"): ("window-region-collapse-both-directions", []),
+    ("C15", "1"): ("grid-dims-from-dataset-dims", ["C16"]), ("C15", "2"): ("knn-data-view-not-copy", ["C20"]),
+    ("C16", "1"): ("grid-dims-from-dataset-dims", ["C15"]), ("C16", "2"): ("hull-from-outline-nodes", []),
+    ("C17", "1"): ("west-bound-single-turn", []), ("C17", "2"): ("wrap-only-if-some-outside", []),
+    ("C18", "1"): ("table-drops-later-extra-coords", []), ("C18", "2"): ("meshgrid-to-1d-linspace", []),
+    ("C19", "1"): ("range-check-all-instead-of-any", []), ("C19", "2"): ("coordinates-in-data-dtype", []),
+    ("C20", "1"): ("mixed-none-weights-dropped", []), ("C20", "2"): ("kfold-fallback-unseeded", ["C11"]),
+}
 PREFIX = ""
 ENV1 = {"OMP_NUM_THREADS": "1", "OPENBLAS_NUM_THREADS": "1", "MKL_NUM_THREADS": "1"}
 
@@ -142,7 +164,7 @@ def record(out):
     head = sh("git -C /repo log -1 --format=%h").stdout.strip()
     meta = {"property": prop,
             "origin": "fresh sub-agent given only the property text and its own scratch worktree of /repo (nothing from /verif)"
-                      + ("; second wave: also told which mechanisms the first wave had used, to force different ones" if PREFIX else ""),
+                      + ("; later wave: also told which mechanisms the earlier waves had used, to force different ones" if PREFIX else ""),
             "needs_to_manifest": notes[:2500],
             "confirmed": {"repo_head": head, "applies_cleanly": True, "demo_passes_without_change": True, "demo_fails_with_change": True,
                           "pinned_baseline_tests_still_pass": True, "tests_passed_with_change": out.get("tests_passed"),
@@ -161,6 +183,9 @@ def main():
     if "--wave2" in args:
         SRC, NAMES, PREFIX = "/tmp/mutout2", NAMES2, "w2-"
         args.remove("--wave2")
+    if "--wave3" in args:
+        SRC, NAMES, PREFIX = "/tmp/mutout3", NAMES3, "w3-"
+        args.remove("--wave3")
     jobs, only, run_tests = 4, None, True
     i = 0
     while i < len(args):
